@@ -89,7 +89,7 @@ func parseMerge(out string) ([]mCase, error) {
 	return cs, nil
 }
 
-var fileDir = map[string]string{"R": "", "A": "a", "B": "b", "C": "c"}
+var fileDir = map[string]string{"R": "", "A": "a", "B": "b", "C": "c", "D": "c/d"}
 
 // fileTasksYAML: the fixed files of Merge.tla (FileTasks), with attributes to be carried over.
 var fileTasksYAML = map[string]string{
@@ -153,6 +153,10 @@ var fileTasksYAML = map[string]string{
   default:
     cmds:
       - echo "O|C.default|$PWD|{{.IV}}"
+`,
+	"D": `  d1:
+    cmds:
+      - echo "O|D.d1|$PWD|{{.IV}}"
 `,
 }
 
